@@ -2191,17 +2191,23 @@ pub(crate) fn skip_attributes<R: Reader>(
                     form = constants::DwForm(dynamic_form);
                     continue;
                 }
+                // Skip blocks immediately instead of accumulating their length, because
+                // adding the size of following attributes to a huge length may overflow.
                 constants::DW_FORM_block1 => {
-                    skip_bytes = input.read_u8().map(R::Offset::from_u8)?;
+                    let len = input.read_u8().map(R::Offset::from_u8)?;
+                    input.skip(len)?;
                 }
                 constants::DW_FORM_block2 => {
-                    skip_bytes = input.read_u16().map(R::Offset::from_u16)?;
+                    let len = input.read_u16().map(R::Offset::from_u16)?;
+                    input.skip(len)?;
                 }
                 constants::DW_FORM_block4 => {
-                    skip_bytes = input.read_u32().map(R::Offset::from_u32)?;
+                    let len = input.read_u32().map(R::Offset::from_u32)?;
+                    input.skip(len)?;
                 }
                 constants::DW_FORM_block | constants::DW_FORM_exprloc => {
-                    skip_bytes = input.read_uleb128().and_then(R::Offset::from_u64)?;
+                    let len = input.read_uleb128().and_then(R::Offset::from_u64)?;
+                    input.skip(len)?;
                 }
                 constants::DW_FORM_string => {
                     let _ = input.read_null_terminated_slice()?;
